@@ -986,6 +986,8 @@ void exec_op(World &W, const Json &op, int index) {
     else if (k == "PLAN") op_plan(W, op);
     else if (k == "SCRUB") op_scrub(W, op);
     else if (k == "VSM") op_vsm(W, op);
+    else if (k == "SIGNAL") sched_signal(op["e"].in(0));
+    else if (k == "WAIT") sched_wait(op["e"].in(0));
     else if (k == "ENV") { if (op["val"].isnull()) set_env(W, false, ""); else set_env(W, true, op["val"].str()); W.fault("ENV"); }
     else exec_op_misc(W, op, k);
     if (!W.threaded && seq_locks_held() != 0) {
